@@ -9,6 +9,20 @@ open Lex (LS LErr LRes)
 
 def ALS.total (s : ALS) : Nat := s.ls.total
 
+/-- what the alias parser relies on, token by token: a diacritic token indexes the table; a feature token is
+    `tone: digits` below 2^16, or a row of the alias feature table other than the tone with `+` or `-` -/
+def ATokX (t : AToken) : Prop :=
+  (∀ i, t.kind = .diacritic i → i < Gen.diacritics.length) ∧
+  (∀ k v, t.kind = .feature k v →
+     (k = "Supr" ∧ v = "Tone" ∧ t.value ≠ [] ∧ t.value.all Lex.isDigit = true ∧ ParseWord.digitsToNat t.value < 2 ^ 16) ∨
+     ((∃ names, (k, v, names) ∈ Gen.aliasFeatNames) ∧ ¬ (k = "Supr" ∧ v = "Tone") ∧ (t.value = [43] ∨ t.value = [45])))
+
+/-- a kind that is neither a diacritic nor a feature -/
+def APlain (k : ATK) : Prop := (∀ i, k ≠ .diacritic i) ∧ (∀ a b, k ≠ .feature a b)
+
+theorem atokX_plain (k : ATK) (v : Text) (a b : Nat) (hp : APlain k) : ATokX ⟨k, v, a, b⟩ :=
+  ⟨fun i h => absurd h (hp.1 i), fun x y h => absurd h (hp.2 x y)⟩
+
 structure Good (s : ALS) (t : AToken) (s' : ALS) : Prop where
   start_eq : t.start = s.pos
   nonempty : t.start < t.stop
@@ -16,6 +30,7 @@ structure Good (s : ALS) (t : AToken) (s' : ALS) : Prop where
   total_eq : s'.total = s.total
   progress : s'.ls.src.length < s.ls.src.length
   not_eol : t.kind ≠ .eol
+  tok_ok : ATokX t
 
 def ErrIn (s : ALS) (e : LErr) : Prop := s.pos ≤ e.start ∧ e.start ≤ e.stop ∧ e.stop ≤ s.total + 1
 
@@ -30,10 +45,11 @@ macro "aerr" : tactic => `(tactic| (simp only [StepSpec, ErrIn, ALS.total, ALS.p
 
 /-- `chop(n)` of `n ≥ 1` available characters, from a state that differs from `s` in flags only -/
 theorem chopTokA_spec (k : ATK) (n : Nat) (s s1 : ALS) (hn : 0 < n) (hle : n ≤ s.ls.src.length) (hk : k ≠ .eol)
-    (hsrc : s1.ls.src = s.ls.src) (hpos : s1.ls.pos = s.ls.pos) : StepSpec s (chopTokA k n s1) := by
+    (hsrc : s1.ls.src = s.ls.src) (hpos : s1.ls.pos = s.ls.pos) (hp : APlain k := by constructor <;> intros <;> simp) :
+    StepSpec s (chopTokA k n s1) := by
   have hle1 : n ≤ s1.ls.src.length := by rw [hsrc]; exact hle
   simp only [chopTokA, Lex.LS.chop, hle1, if_true, bind, Outcome.bind, pure, StepSpec]
-  refine ⟨by simp [ALS.pos, hpos], by simp only [ALS.pos]; omega, by simp [ALS.pos], ?_, ?_, hk⟩
+  refine ⟨by simp [ALS.pos, hpos], by simp only [ALS.pos]; omega, by simp [ALS.pos], ?_, ?_, hk, atokX_plain _ _ _ _ hp⟩
   · simp only [ALS.total, Lex.LS.total, List.length_drop]; rw [hsrc, hpos]; omega
   · simp only [List.length_drop]; rw [hsrc]; omega
 
@@ -64,34 +80,34 @@ theorem getPrimative_spec (s : ALS) (h : s.ls.src ≠ []) : StepSpec s (getPrima
 
 theorem getSpecialChar_spec (s : ALS) (h : s.ls.src ≠ []) : StepSpec s (getSpecialChar s) := by
   have h1 := Lex.len_pos_of_ne _ h
-  have one : ∀ (k : ATK) (s1 : ALS), k ≠ .eol → s1.ls.src = s.ls.src → s1.ls.pos = s.ls.pos → StepSpec s (chopTokA k 1 s1) :=
-    fun k s1 hk hs hp => chopTokA_spec k 1 s s1 (by omega) h1 hk hs hp
+  have one : ∀ (k : ATK) (s1 : ALS), k ≠ .eol → s1.ls.src = s.ls.src → s1.ls.pos = s.ls.pos → APlain k → StepSpec s (chopTokA k 1 s1) :=
+    fun k s1 hk hs hp hpl => chopTokA_spec k 1 s s1 (by omega) h1 hk hs hp hpl
   unfold getSpecialChar
-  by_cases c1 : s.cur = 44; · rw [if_pos c1]; exact one _ s (by simp) rfl rfl
+  by_cases c1 : s.cur = 44; · rw [if_pos c1]; exact one _ s (by simp) rfl rfl ⟨by simp, by simp⟩
   rw [if_neg c1]
-  by_cases c2 : s.cur = 58; · rw [if_pos c2]; exact one _ s (by simp) rfl rfl
+  by_cases c2 : s.cur = 58; · rw [if_pos c2]; exact one _ s (by simp) rfl rfl ⟨by simp, by simp⟩
   rw [if_neg c2]
-  by_cases c3 : s.cur = 35; · rw [if_pos c3]; exact one _ s (by simp) rfl rfl
+  by_cases c3 : s.cur = 35; · rw [if_pos c3]; exact one _ s (by simp) rfl rfl ⟨by simp, by simp⟩
   rw [if_neg c3]
-  by_cases c4 : s.cur = 36; · rw [if_pos c4]; exact one _ s (by simp) rfl rfl
+  by_cases c4 : s.cur = 36; · rw [if_pos c4]; exact one _ s (by simp) rfl rfl ⟨by simp, by simp⟩
   rw [if_neg c4]
-  by_cases c5 : s.cur = 37; · rw [if_pos c5]; exact one _ s (by simp) rfl rfl
+  by_cases c5 : s.cur = 37; · rw [if_pos c5]; exact one _ s (by simp) rfl rfl ⟨by simp, by simp⟩
   rw [if_neg c5]
-  by_cases c6 : s.cur = 42; · rw [if_pos c6]; exact one _ s (by simp) rfl rfl
+  by_cases c6 : s.cur = 42; · rw [if_pos c6]; exact one _ s (by simp) rfl rfl ⟨by simp, by simp⟩
   rw [if_neg c6]
-  by_cases c7 : s.cur = 0x2205; · rw [if_pos c7]; exact one _ s (by simp) rfl rfl
+  by_cases c7 : s.cur = 0x2205; · rw [if_pos c7]; exact one _ s (by simp) rfl rfl ⟨by simp, by simp⟩
   rw [if_neg c7]
-  by_cases c8 : s.cur = 95; · rw [if_pos c8]; exact one _ s (by simp) rfl rfl
+  by_cases c8 : s.cur = 95; · rw [if_pos c8]; exact one _ s (by simp) rfl rfl ⟨by simp, by simp⟩
   rw [if_neg c8]
-  by_cases c9 : s.cur = 60; · rw [if_pos c9]; exact one _ _ (by simp) rfl rfl
+  by_cases c9 : s.cur = 60; · rw [if_pos c9]; exact one _ _ (by simp) rfl rfl ⟨by simp, by simp⟩
   rw [if_neg c9]
-  by_cases c10 : s.cur = 62; · rw [if_pos c10]; exact one _ _ (by simp) rfl rfl
+  by_cases c10 : s.cur = 62; · rw [if_pos c10]; exact one _ _ (by simp) rfl rfl ⟨by simp, by simp⟩
   rw [if_neg c10]
   by_cases c11 : s.cur = 61
   · rw [if_pos c11]
     by_cases hn : s.next = 62
     · rw [if_pos hn]; exact chopTokA_spec _ 2 s _ (by omega) (Lex.len_two_of_next s.ls _ (by decide) hn) (by simp) rfl rfl
-    · rw [if_neg hn]; exact one _ s (by simp) rfl rfl
+    · rw [if_neg hn]; exact one _ s (by simp) rfl rfl ⟨by simp, by simp⟩
   rw [if_neg c11]
   by_cases c12 : s.cur = 45
   · rw [if_pos c12]
@@ -103,41 +119,73 @@ theorem getSpecialChar_spec (s : ALS) (h : s.ls.src ≠ []) : StepSpec s (getSpe
 
 /-- lift a fact about a scanning state reached from `s.ls` to the alias state built on it -/
 theorem good_of_ls (s : ALS) (t : AToken) (l : LS) (f : ALS) (hf : f.ls = l) (hstart : t.start = s.pos) (hstop : t.stop = l.pos)
-    (htot : l.total = s.ls.total) (hlen : l.src.length < s.ls.src.length) (hk : t.kind ≠ .eol) : Good s t f := by
+    (htot : l.total = s.ls.total) (hlen : l.src.length < s.ls.src.length) (hk : t.kind ≠ .eol) (hx : ATokX t) : Good s t f := by
   have : s.ls.pos < l.pos := by simp only [Lex.LS.total] at htot; omega
-  refine ⟨hstart, by rw [hstart, hstop]; exact this, by rw [hstop]; simp [ALS.pos, hf], by simp [ALS.total, hf, htot], by rw [hf]; exact hlen, hk⟩
+  refine ⟨hstart, by rw [hstart, hstop]; exact this, by rw [hstop]; simp [ALS.pos, hf], by simp [ALS.total, hf, htot], by rw [hf]; exact hlen, hk, hx⟩
+
+theorem featureMatch_mem (buf : Text) (k v : String) (h : featureMatch buf = some (k, v)) : ∃ names, (k, v, names) ∈ Gen.aliasFeatNames := by
+  unfold featureMatch at h
+  cases hf : Gen.aliasFeatNames.find? (fun e => e.2.2.contains (Lex.toStr (buf.map Lex.lower))) with
+  | none => rw [hf] at h; cases h
+  | some e =>
+    rw [hf] at h
+    simp only [Option.map_some, Option.some.injEq, Prod.mk.injEq] at h
+    obtain ⟨a, b, c⟩ := e
+    exact ⟨c, by rw [← h.1, ← h.2]; exact List.mem_of_find?_eq_some hf⟩
 
 theorem featFinish_spec (s : ALS) (l4 : LS) (m buf : Text) (htot : l4.total = s.ls.total) (hlen : l4.src.length < s.ls.src.length)
-    (hpos : s.ls.pos ≤ l4.pos) : StepSpec s (featFinish s.pos m buf { s with ls := l4 }) := by
+    (hpos : s.ls.pos ≤ l4.pos) (hm : m = [43] ∨ m = [45]) : StepSpec s (featFinish s.pos m buf { s with ls := l4 }) := by
   have hle : l4.pos ≤ s.ls.total := by rw [← htot]; simp only [Lex.LS.total]; omega
   unfold featFinish
   split
   · simp only [StepSpec, ErrIn, ALS.pos, ALS.total]; omega
   · split
     · simp only [StepSpec, ErrIn, ALS.pos, ALS.total]; omega
-    · split
+    · rename_i kind variant hfm
+      split
       · simp only [StepSpec, ErrIn, ALS.pos, ALS.total, Lex.LS.total]; omega
-      · exact good_of_ls s _ l4 _ rfl rfl rfl htot hlen (by simp)
+      · rename_i hnt
+        refine good_of_ls s _ l4 _ rfl rfl rfl htot hlen (by simp) ⟨fun i h => ATK.noConfusion h, fun k v h => ?_⟩
+        have hk : kind = k := by injection h
+        have hv : variant = v := by injection h
+        subst hk; subst hv
+        refine Or.inr ⟨featureMatch_mem buf _ _ hfm, fun hh => hnt ?_, hm⟩
+        obtain ⟨h1, h2⟩ := hh
+        rcases hm with rfl | rfl <;> simp [h1, h2]
 
 theorem getFeature_spec (s : ALS) (h : s.ls.src ≠ []) : StepSpec s (getFeature s) := by
   unfold getFeature
   split
   · trivial
-  · obtain ⟨l1, he, hpos, _, htot, hlen⟩ := Lex.advance_ok s.ls h
-    obtain ⟨m, l2, hm, h1, h2, h3⟩ := Lex.featMod_spec s.cur l1
-    have ht := Lex.trimWs_spec l2
-    obtain ⟨buf, l4, hf, g1, g2, g3⟩ := Lex.featLoop_spec (l2.trimWs.src.length + 1) l2.trimWs [] (by omega)
-    simp only [he, hm, hf, bind, Outcome.bind]
-    exact featFinish_spec s l4 m buf (by omega) (by omega) (by omega)
+  · rename_i hc
+    have hm : [s.cur] = [43] ∨ [s.cur] = [45] := by
+      simp only [Bool.or_eq_true, Bool.not_eq_true', Bool.and_eq_true, bne_iff_ne, ne_eq, not_or, not_and, Decidable.not_not] at hc
+      by_cases h43 : s.cur = 43
+      · left; rw [h43]
+      · right; rw [hc.2 h43]
+    obtain ⟨l1, he, hpos, _, htot, hlen⟩ := Lex.advance_ok s.ls h
+    have ht := Lex.trimWs_spec l1
+    obtain ⟨buf, l4, hf, g1, g2, g3⟩ := Lex.featLoop_spec (l1.trimWs.src.length + 1) l1.trimWs [] (by omega)
+    simp only [he, hf, bind, Outcome.bind]
+    exact featFinish_spec s l4 [s.cur] buf (by omega) (by omega) (by omega) hm
 
 theorem getDiacritic_spec (s : ALS) (h : s.ls.src ≠ []) : StepSpec s (getDiacritic s) := by
   unfold getDiacritic
   split
   · trivial
   · split
-    · obtain ⟨l1, he, hpos, _, htot, hlen⟩ := Lex.advance_ok s.ls h
+    · rename_i i hi
+      have hlt : i < Gen.diacritics.length := by
+        unfold Lex.diaIndex at hi
+        simp only at hi
+        split at hi
+        · cases hi; assumption
+        · cases hi
+      obtain ⟨l1, he, hpos, _, htot, hlen⟩ := Lex.advance_ok s.ls h
       simp only [ALS.adv, he, bind, Outcome.bind, pure, StepSpec]
       exact good_of_ls s _ l1 _ rfl rfl rfl htot (by omega) (by simp)
+        ⟨fun j hj => by have : i = j := by injection hj
+                        subst this; exact hlt, fun k v hk => ATK.noConfusion hk⟩
     · trivial
 
 theorem getIpa_spec (s : ALS) (h : s.ls.src ≠ []) : StepSpec s (getIpa s) := by
@@ -148,7 +196,7 @@ theorem getIpa_spec (s : ALS) (h : s.ls.src ≠ []) : StepSpec s (getIpa s) := b
   · obtain ⟨l1, he, hpos, _, htot, hlen⟩ := Lex.advance_ok s.ls h
     obtain ⟨b', l2, hr, h1, h2, h3⟩ := Lex.ipaLoop_spec (l1.src.length + 1) l1 (Lex.ipaFirst s.cur) (Nat.lt_succ_self _)
     simp only [he, bind, Outcome.bind, hr, pure, StepSpec]
-    exact good_of_ls s _ l2 _ rfl rfl rfl (by omega) (by omega) (by simp)
+    exact good_of_ls s _ l2 _ rfl rfl rfl (by omega) (by omega) (by simp) (atokX_plain _ _ _ _ ⟨by simp, by simp⟩)
   · trivial
 
 theorem getEnby_spec (s : ALS) (h : s.ls.src ≠ []) : StepSpec s (getEnby s) := by
@@ -179,7 +227,20 @@ theorem getEnby_spec (s : ALS) (h : s.ls.src ≠ []) : StepSpec s (getEnby s) :=
       have hpr := Lex.chopWhile_progress l3.trimWs Lex.isDigit hne hd
       simp only [getNumeric, ALS.cur, ALS.pos, hd, Bool.not_true, Bool.false_eq_true, if_false]
       split
-      · exact good_of_ls s _ (l3.trimWs.chopWhile Lex.isDigit).2 _ rfl rfl rfl (by omega) (by omega) (by simp)
+      · rename_i hlt
+        have hval : (l3.trimWs.chopWhile Lex.isDigit).1 ≠ [] := by
+          intro h0
+          have h4 := hsp.2.2.2
+          rw [h0] at h4
+          have : (l3.trimWs.chopWhile Lex.isDigit).2.total = l3.trimWs.total := hsp.1
+          simp only [Lex.LS.total, List.length_nil, Nat.add_zero] at h4 this
+          omega
+        refine good_of_ls s _ (l3.trimWs.chopWhile Lex.isDigit).2 _ rfl rfl rfl (by omega) (by omega) (by simp)
+          ⟨fun j hj => ATK.noConfusion hj, fun k v hk => ?_⟩
+        have hk1 : "Supr" = k := by injection hk
+        have hk2 : "Tone" = v := by injection hk
+        subst hk1; subst hk2
+        exact Or.inl ⟨rfl, rfl, hval, List.all_takeWhile, hlt⟩
       · -- ToneTooBig underlines the digits
         have : (l3.trimWs.chopWhile Lex.isDigit).2.pos ≤ (l3.trimWs.chopWhile Lex.isDigit).2.total := by simp only [Lex.LS.total]; omega
         have := hsp.1; have := hsp.2.2.1; have := ht4.1; have := ht4.2.2; have := ht.1; have := ht.2.2; have := hw.1; have := hw.2.2.1
@@ -434,7 +495,7 @@ theorem getUnicodeString_spec (s : ALS) (h : s.ls.src ≠ []) : StepSpec s (getU
           | err e => rw [hg] at hx; cases hx
           | panic q => rw [hg] at hx; cases hx
           | outOfFuel q => rw [hg] at hx; cases hx
-      · refine ⟨rfl, by simp only [ALS.pos] at g1 ⊢; omega, g2, h1, g3, by simp⟩
+      · refine ⟨rfl, by simp only [ALS.pos] at g1 ⊢; omega, g2, h1, g3, by simp, atokX_plain _ _ _ _ ⟨by simp, by simp⟩⟩
     | err e => rw [hx] at hl; exact hl
     | panic q => rw [hx] at hl; exact hl
     | outOfFuel q => rw [hx] at hl; exact hl
@@ -464,7 +525,7 @@ def TokSpec (s0 : ALS) : LRes (AToken × ALS) → Prop
   | .ok (t, s') =>
     s0.pos ≤ t.start ∧ t.start < t.stop ∧ s'.total = s0.total ∧
     (t.kind = .eol → t.start = s0.total ∧ t.stop = s0.total + 1) ∧
-    (t.kind ≠ .eol → t.stop ≤ s'.pos ∧ s'.ls.src.length < s0.ls.src.length)
+    (t.kind ≠ .eol → t.stop ≤ s'.pos ∧ s'.ls.src.length < s0.ls.src.length) ∧ ATokX t
   | .err e => s0.pos ≤ e.start ∧ e.start ≤ e.stop ∧ e.stop ≤ s0.total + 1
   | .panic _ => False
   | .outOfFuel _ => False
@@ -478,7 +539,7 @@ theorem getNextToken_spec (derom : Bool) (s0 : ALS) : TokSpec s0 (getNextToken d
     have hl : s0.ls.trimWs.src.length = 0 := by simpa [ALS.trim] using he
     have : s0.ls.trimWs.pos = s0.ls.total := by have := ht.1; simp only [Lex.LS.total] at this ⊢; omega
     simp only [TokSpec, ALS.trim, ALS.pos, ALS.total]
-    refine ⟨by omega, by omega, ht.1, fun _ => ⟨this, by omega⟩, fun hk => absurd rfl hk⟩
+    refine ⟨by omega, by omega, ht.1, fun _ => ⟨this, by omega⟩, fun hk => absurd rfl hk, atokX_plain _ _ _ _ ⟨by simp, by simp⟩⟩
   · rw [if_neg he]
     have hne : s0.trim.ls.src ≠ [] := by simpa using he
     have hspec : StepSpec s0.trim
@@ -497,7 +558,7 @@ theorem getNextToken_spec (derom : Bool) (s0 : ALS) : TokSpec s0 (getNextToken d
       have h1 := hg.start_eq; have h2 := hg.nonempty; have h3 := hg.stop_le; have h4 := hg.total_eq; have h5 := hg.progress
       simp only [ALS.trim, ALS.pos, ALS.total] at h1 h3 h4 h5
       simp only [TokSpec, ALS.pos, ALS.total]
-      refine ⟨by omega, h2, by omega, fun hk => absurd hk hg.not_eol, fun _ => ⟨h3, by omega⟩⟩
+      refine ⟨by omega, h2, by omega, fun hk => absurd hk hg.not_eol, fun _ => ⟨h3, by omega⟩, hg.tok_ok⟩
     | .ok none, _ =>
       simp only [TokSpec, ALS.trim, ALS.pos, ALS.total]; omega
     | .err e, hg =>
@@ -506,7 +567,7 @@ theorem getNextToken_spec (derom : Bool) (s0 : ALS) : TokSpec s0 (getNextToken d
       simp only [TokSpec, ALS.pos, ALS.total]; omega
 
 def LineSpec (s : ALS) (acc : List AToken) : LRes (List AToken) → Prop
-  | .ok res => ∃ new, res = acc ++ new ∧ (∀ t ∈ new, s.pos ≤ t.start ∧ t.start < t.stop ∧ t.stop ≤ s.total + 1) ∧
+  | .ok res => ∃ new, res = acc ++ new ∧ (∀ t ∈ new, s.pos ≤ t.start ∧ t.start < t.stop ∧ t.stop ≤ s.total + 1 ∧ ATokX t) ∧
       ∃ t, new.getLast? = some t ∧ t.kind = .eol
   | .err e => s.pos ≤ e.start ∧ e.start ≤ e.stop ∧ e.stop ≤ s.total + 1
   | .panic _ => False
@@ -523,13 +584,13 @@ theorem lineLoop_spec (derom : Bool) : ∀ (fuel : Nat) (s : ALS) (acc : List AT
     unfold lineLoop
     match hg : getNextToken derom s, hs with
     | .ok (t, s'), hs =>
-      obtain ⟨h1, h2, h3, h4, h5⟩ := hs
+      obtain ⟨h1, h2, h3, h4, h5, h6⟩ := hs
       simp only
       by_cases hk : t.kind = .eol
       · rw [if_pos hk]
         obtain ⟨e1, e2⟩ := h4 hk
         refine ⟨[t], rfl, fun t' ht' => ?_, t, rfl, hk⟩
-        simp only [List.mem_singleton] at ht'; subst ht'; omega
+        simp only [List.mem_singleton] at ht'; subst ht'; exact ⟨by omega, by omega, by omega, h6⟩
       · rw [if_neg hk]
         obtain ⟨e1, e2⟩ := h5 hk
         have hrec := ih s' (acc ++ [t]) (by omega)
@@ -539,8 +600,8 @@ theorem lineLoop_spec (derom : Bool) : ∀ (fuel : Nat) (s : ALS) (acc : List AT
           obtain ⟨new, hres, hw, tl, hl1, hl2⟩ := hrec
           refine ⟨t :: new, by rw [hres]; simp, fun t' ht' => ?_, tl, ?_, hl2⟩
           · rcases List.mem_cons.mp ht' with rfl | hm
-            · exact ⟨h1, h2, by omega⟩
-            · have := hw t' hm; omega
+            · exact ⟨h1, h2, by omega, h6⟩
+            · have := hw t' hm; exact ⟨by omega, by omega, by omega, this.2.2.2⟩
           · cases new with
             | nil => simp at hl1
             | cons a b => simpa using hl1
